@@ -50,7 +50,7 @@ impl Atom {
 pub fn atoms_of_layout(l: &Layout) -> Vec<Atom> {
     let mut out = vec![];
     for f in &l.fields {
-        if f.kind == Kind::Bytes && f.len >= sx::TOKEN_LEN && l.bytes[f.off..f.off + 8] == MAGIC {
+        if f.kind == Kind::Bytes && ((f.len >= sx::TOKEN_LEN && l.bytes[f.off..f.off + 8] == MAGIC) || (f.len == 32 && sx::parse_blob(&l.bytes[f.off..f.off + 32]).is_some())) {
             let (kind, id, w) = sx::untoken(&l.bytes[f.off..f.off + f.len]).unwrap();
             assert_eq!(w, f.len, "token width vs field width at {}", f.path);
             out.push(Atom { path: f.path.clone(), off: f.off, width: w, kind, id });
